@@ -16,7 +16,7 @@ func init() {
 		Explanation: "Structural necessary conditions of 'a response-wrapping token reveals its payload exactly once': " +
 			"(1) the wrapping token built by Core.wrapInCubbyhole is single-use (NumUses: 1), carries only the response-wrapping policy, and has TTL = ExplicitMaxTTL = the wrap TTL; the lease registered for it (the thing that expires it) carries that same entry's TTL and is not renewable; the payload and the wrap info are stored under that token's own cubbyhole (request ClientToken = the new token's ID, constant cubbyhole paths); " +
 			"(2) once wrapInCubbyhole ran, Core.handleCancelableRequest returns only wrapInCubbyhole's own (error) response or a fresh response whose only populated fields are WrapInfo and Warnings — never the original response; " +
-			"(3) the three sys/wrapping/{lookup,rewrap,unwrap} paths reach the request handlers only across validateWrappingToken == true, which is returned only for a looked-up token that IsWrappingToken accepts; third-party unwrap/rewrap consume the use count (UseTokenByID success) before reading the cubbyhole and revoke the token afterwards (deferred revokeOrphan), and the thirdParty flag that selects this is the constant true on every edge on which the token acted on was named in the request body (it is decided together with the choice of the token and is the value tested / handed to responseWrappingUnwrap, whose only caller is handleWrappingUnwrap); " +
+			"(3) the three sys/wrapping/{lookup,rewrap,unwrap} paths reach the request handlers only across validateWrappingToken == true, which is returned only for a looked-up token that IsWrappingToken accepts; third-party unwrap/rewrap consume the use count (UseTokenByID success) before reading the cubbyhole and revoke the token afterwards (deferred revokeOrphan), and the thirdParty flag that selects this is the constant true on every edge on which the token acted on was named in the request body (it is decided together with the choice of the token and is the value tested / handed to responseWrappingUnwrap, whose only caller is handleWrappingUnwrap) — calls are selected by their resolved callee (written directly, through a method value, or, for the revocation, on every path of a closure the function defers) and a condition kept in a boolean variable (ok := a != nil && f(a)) counts as the test it was built from; " +
 			"(4) the decrement is the locked read-modify-write of C19; (5) lookup reports creation_path from the stored wrap info; " +
 			"(6) the re-read UseToken decrements is made with tainted=false, and lookupInternal hands out a stored entry only across 'NumUses < 0' being false or tainted being true, so a token whose use was consumed is invisible to it; " +
 			"(7) Core.handleCancelableRequest decides to wrap on the conjunction of the tabled facts only (response present, no error, not an error response, WrapInfo with a TTL, not wrapped yet), and handleRequest / handleLoginRequest set resp.WrapInfo on every path on which the effective wrap TTL is positive; " +
@@ -202,6 +202,20 @@ func runC18(c *eng.Ctx, thorough bool) {
 		// ---- C18.3 validation before the handlers on the three wrapping paths
 		c.Clause("R2", "C18.3")
 		handlers := instrsOf(eng.Calls(f, `vault\.\(\*Core\)\.(handleRequest|handleLoginRequest)$`))
+		// the guard is the verdict of validateWrappingToken, whichever way the call is
+		// written (c.validateWrappingToken(...) or through its method value): the
+		// branches on the call's own results
+		gValid := eng.Guard{Desc: "[^vault\\.\\(\\*Core\\)\\.validateWrappingToken\\(\\)#0$]=true"}
+		gNoErr := eng.Guard{Desc: "[^vault\\.\\(\\*Core\\)\\.validateWrappingToken\\(\\)#1 == nil$]=true"}
+		for _, v := range c18CallsOf(f, c.P.Func("vault.(*Core).validateWrappingToken")) {
+			if v.Deferred {
+				continue
+			}
+			if r0 := eng.ResultValue(v.Call, 0); r0 != nil {
+				gValid.Edges = append(gValid.Edges, eng.BoolEdges(r0, true)...)
+			}
+			gNoErr.Edges = append(gNoErr.Edges, eng.CallOKEdgesDirect(v.Call)...)
+		}
 		for _, p := range []string{"sys/wrapping/lookup", "sys/wrapping/rewrap", "sys/wrapping/unwrap"} {
 			asm := map[string]bool{`^req\.Path == "` + p + `"$`: true, `^strings\.HasPrefix\(\)$`: true}
 			for _, q := range []string{"sys/wrapping/lookup", "sys/wrapping/rewrap", "sys/wrapping/unwrap"} {
@@ -209,8 +223,8 @@ func runC18(c *eng.Ctx, thorough bool) {
 					asm[`^req\.Path == "`+q+`"$`] = false
 				}
 			}
-			c.Cut(f, "request handlers (path "+p+")", handlers, eng.G(f, `^vault\.\(\*Core\)\.validateWrappingToken\(\)#0$`, true), asm)
-			c.Cut(f, "request handlers (path "+p+")", handlers, eng.G(f, `^vault\.\(\*Core\)\.validateWrappingToken\(\)#1 == nil$`, true), asm)
+			c.Cut(f, "request handlers (path "+p+")", handlers, gValid, asm)
+			c.Cut(f, "request handlers (path "+p+")", handlers, gNoErr, asm)
 		}
 	}
 	if f := c.Fn("vault.(*Core).validateWrappingToken"); f != nil {
@@ -233,9 +247,9 @@ func runC18(c *eng.Ctx, thorough bool) {
 		}
 		if c.Floor(f, "returns that may report valid", len(trueRets), 1) {
 			c.Cut(f, "valid = true", trueRets, eng.GCallOK(f, `vault\.\(\*TokenStore\)\.Lookup$`), nil)
-			c.Cut(f, "valid = true", trueRets, eng.G(f, `^vault\.\(\*TokenStore\)\.Lookup\(\)#0 == nil$`, false), nil)
-			c.Cut(f, "valid = true", trueRets, eng.G(f, `^vault\.IsWrappingToken\(\)$`, true), nil)
-			c.Cut(f, "valid = true", trueRets, eng.G(f, `^vault\.\(\*Core\)\.Sealed\(\)$`, false), nil)
+			c.Cut(f, "valid = true", trueRets, c18G(f, `^vault\.\(\*TokenStore\)\.Lookup\(\)#0 == nil$`, false), nil)
+			c.Cut(f, "valid = true", trueRets, c18G(f, `^vault\.IsWrappingToken\(\)$`, true), nil)
+			c.Cut(f, "valid = true", trueRets, c18G(f, `^vault\.\(\*Core\)\.Sealed\(\)$`, false), nil)
 		}
 		c.Clause("R5", "C18.3")
 		for _, w := range eng.Calls(f, `^vault\.IsWrappingToken$`) {
@@ -260,7 +274,10 @@ func runC18(c *eng.Ctx, thorough bool) {
 			continue
 		}
 		c.Clause("R2", "C18.3")
-		route := instrsOf(eng.Calls(f, `routing\.\(\*Router\)\.Route$`))
+		// sites are selected by their resolved callee: written directly, called
+		// through a method value, or (the revocation) inside a deferred closure
+		routeSites := c18CallsOf(f, c.P.Func("routing.(*Router).Route"))
+		route := c18SiteInstrs(routeSites)
 		if !c.Floor(f, "cubbyhole read", len(route), 1) {
 			continue
 		}
@@ -268,9 +285,9 @@ func runC18(c *eng.Ctx, thorough bool) {
 		c.Cut(f, "cubbyhole read", route, eng.Or(eng.Guard{Desc: use.Desc, Edges: use.Edges}, eng.G(f, `^φ?thirdParty(\{.*\})?$`, false)), nil)
 		// the revocation is armed for a third-party call
 		var defers []ssa.Instruction
-		for _, d := range eng.Calls(f, `vault\.\(\*TokenStore\)\.revokeOrphan$`) {
-			if _, ok := d.(*ssa.Defer); ok {
-				defers = append(defers, d)
+		for _, d := range c18CallsOf(f, c.P.Func("vault.(*TokenStore).revokeOrphan")) {
+			if d.Deferred {
+				defers = append(defers, d.At)
 			}
 		}
 		if len(defers) == 0 {
@@ -284,10 +301,10 @@ func runC18(c *eng.Ctx, thorough bool) {
 			}
 		}
 		c.Clause("R5", "C18.3")
-		for _, r := range route {
-			req := r.(ssa.CallInstruction).Common().Args[2]
+		for _, r := range routeSites {
+			req := r.Args[2]
 			for _, v := range eng.StructLitField(req, "ClientToken") {
-				c.Prov(f, "cubbyhole read as the wrapping token", r, v, `^field:te\.ID$`, `^param:`, `^field:req\.ClientToken$`, `framework\.\(\*FieldData\)\.Get`)
+				c.Prov(f, "cubbyhole read as the wrapping token", r.At, v, `^field:te\.ID$`, `^param:`, `^field:req\.ClientToken$`, `framework\.\(\*FieldData\)\.Get`)
 			}
 		}
 	}
@@ -501,10 +518,11 @@ func c18Namespace(c *eng.Ctx) {
 	if f := c.Fn("vault.(*SystemBackend).responseWrappingUnwrap"); f != nil {
 		c.Clause("R5", "C18.3")
 		n := 0
-		for _, pat := range []string{`^vault\.\(\*TokenStore\)\.UseTokenByID$`, `^vault\.\(\*TokenStore\)\.revokeOrphan$`, `^routing\.\(\*Router\)\.Route$`} {
-			for _, cl := range eng.Calls(f, pat) {
+		for _, short := range []string{"vault.(*TokenStore).UseTokenByID", "vault.(*TokenStore).revokeOrphan", "routing.(*Router).Route"} {
+			target := c.P.Func(short)
+			for _, cl := range c18CallsOf(f, target) {
 				n++
-				c.Prov(f, "context of "+eng.CalleeName(cl.Common())+" = the unwrap context", cl, cl.Common().Args[1], `^param:ctx$`)
+				c.Prov(f, "context of "+eng.FuncName(target)+" = the unwrap context", cl.At, cl.Args[1], `^param:ctx$`)
 			}
 		}
 		c.Floor(f, "namespace-sensitive steps of the unwrap", n, 3)
